@@ -21,7 +21,7 @@ Open Scope Z_scope.
 
 RULE = ("files: 1..400 residues (three size classes), residue sizes 1..12, 2..6 residue kinds laid out in blocks / "
         "alternating / random order, kinds sharing a name with different sizes, kinds sharing name and size with "
-        "different atom names, residue names starting with digits (the repaired D9 shape), numbering sequential / "
+        "different atom names, kinds sharing atom names and size under different names, residue names starting with digits (the repaired D9 shape), numbering sequential / "
         "constant / changing every 2-3 residues / wrapping at 100000 / random, with and without velocities, 3..5 "
         "decimals, 3- and 9-number boxes; histories of index (in and out of range, negative, -1), slice (None/negative/"
         "out-of-range bounds, steps +-1..3 and 0), partial fresh iteration, live iterators stepped between other accesses. "
@@ -92,6 +92,9 @@ def gen_kinds(rs, flags):
         while size == len(an):
             size = rs.randint(1, 13)
         kinds[1] = (rn, ["%s%d" % (LETTERS[rs.randint(26)], k + 1) for k in range(size)])
+    if "same_atoms" in flags:
+        # another residue name with exactly the atom names (and size) of the first kind
+        kinds[1] = (kinds[1][0], list(kinds[0][1]))
     if "same_name_size" in flags:
         rn, an = kinds[0]
         other = list(an)
@@ -106,7 +109,7 @@ def gen_kinds(rs, flags):
 
 
 FLAGSETS = [(), ("same_name_diff_size",), ("same_name_size",), ("digits",), ("same_name_diff_size", "same_name_size"),
-            ("digits", "same_name_size")]
+            ("digits", "same_name_size"), ("same_atoms",), ("same_atoms", "same_name_size")]
 LAYOUTS = ["blocks", "alternating", "random", "aba"]
 NUMBERINGS = ["sequential", "constant", "every2", "every3", "wrap", "random", "blockwise"]
 
@@ -166,8 +169,12 @@ def gen_file(rs, nres):
         ins = []
         for rid, rn, names in ((1, "2AB", ("A1", "A2")), (12, "AB", ("B1", "B2", "B3"))):
             for a in names:
-                pos = tuple(float(x) for x in np.round(rs.uniform(100.0, 120.0, size=3), dec))
-                v = tuple(float(x) for x in np.round(rs.uniform(-9.0, 9.0, size=3), dec + 1)) if vel else None
+                while True:
+                    pos = tuple(float(x) for x in np.round(rs.uniform(100.0, 120.0, size=3), dec))
+                    v = tuple(float(x) for x in np.round(rs.uniform(-9.0, 9.0, size=3), dec + 1)) if vel else None
+                    if (pos, v) not in seen:
+                        seen.add((pos, v))
+                        break
                 ins.append((rid, rn, a, 1, pos, v))
         recs = recs[:at] + ins + recs[at:]
     box = (tuple(float(x) for x in np.round(rs.uniform(1, 50, size=3), 5)) if rs.randint(3) else
@@ -558,7 +565,7 @@ def build_cases(ctx, rs, nfiles, maxops, with_corpus=True):
 
 def correspondence(ctx):
     rs = ctx.np_rng("K")
-    nfiles = ctx.n(160, 1200)
+    nfiles = ctx.n(160, 800)
     maxops = ctx.n(60, 200)
     cases, metas, hist = build_cases(ctx, rs, nfiles, maxops)
     for m in (metas[0], metas[4], metas[-1]):
@@ -588,7 +595,7 @@ def correspondence(ctx):
 def oracle(ctx, scale):
     rs = ctx.np_rng("S%d" % scale)
     S = ctx.cov["S"]
-    nfiles = ctx.n(120, 1200) * scale
+    nfiles = ctx.n(120, 1000) * scale
     maxops = ctx.n(60, 200)
     fails = 0
     nops = 0
